@@ -69,6 +69,9 @@ def run(chk):
         "hand-written models coq/Model/Vehicle.v, coq/Model/EnergyTraversal.v (tied by the bit-exact correspondence streams of this run)",
         "specification coq/Model/VehicleSpec.v (closed forms and checker; read it: 150 lines)",
         "unit tables and builders: coq/Gen/UnitTables.v + coq/Model/Units.v (regenerated / proved / tied by property C09)",
+        "translator/tr_soc.py + translator/rsparse.py (as_soc_percent, soc_from_battery_and_delta, update_soc_percent, the range / default / "
+        "starting-energy expression of BEV and PHEV update_from_query compiled to coq/Gen/Soc.v on every run; fails closed; "
+        "coq/Props/GenSoc.v proves Model/Vehicle.v equal to them for all arguments, so a misreading shows up in the bit-exact streams)",
         "the predictor is a function (random forest / ONNX / interpolation evaluators are outside the model); "
         "the harness plugs an affine predictor into PredictionModelRecord",
         "serde_json Value::get / as_f64 (query parsing), the lru crate (specified as an LRU map), f32 haversine (its value is an input)",
@@ -93,7 +96,16 @@ def run(chk):
         chk.violation("broken-correspondence", "translator", {"translator": "tr_units", "error": tres.get("msg")},
                       tres.get("msg"), "the unit sources have the shape the translator knows",
                       detail="coq/Gen/UnitTables.v could not be regenerated (see property C09)", found=False, key="translator")
-    chk.proofs(extra_targets=["Model/VehicleRun.vo"])
+    # the state-of-charge arithmetic (vehicle_ops.rs, BEV / PHEV update_from_query) is regenerated from the Rust source as
+    # coq/Gen/Soc.v; coq/Props/GenSoc.v proves the hand-written Model/Vehicle.v equal to it for all arguments
+    sres = vf.run_translators(which=["soc"]).get("soc", {"ok": False, "msg": "translator module tr_soc.py missing"})
+    chk.coverage["translator"] = {"soc": {k: sres.get(k) for k in ("ok", "msg", "digest", "files", "changed")}}
+    if not sres.get("ok"):
+        chk.violation("broken-correspondence", "translator", {"translator": "tr_soc", "error": sres.get("msg")},
+                      sres.get("msg"), "routee/vehicle/{vehicle_ops,default/bev,default/phev}.rs have the shape the translator knows "
+                      "(fail closed)", detail="coq/Gen/Soc.v could not be regenerated; the previous definitions (if any) are used below",
+                      found=False, key="translator-soc")
+    chk.proofs(extra_targets=["Model/VehicleRun.vo"], extra_props=["Props/GenSoc.v"])
     binp = vf.build_harness("c08")
     quick = chk.tier == "quick"
     judge = ["--judge-collisions"] if "K_cache_collision" in chk.finding_ids() else []
